@@ -51,6 +51,8 @@ enum Fault {
     None,
     Partition { host: usize, at: u64, len: u64, oneway: u8 },
     Hold { host: usize, at: u64, len: u64 },
+    /// hold the link, partition it while SYNs may be held, then repair + release
+    HoldThenPartition { host: usize, at: u64, len1: u64, len2: u64 },
 }
 
 #[derive(Clone, Debug)]
@@ -79,6 +81,10 @@ enum Ev {
     ConnErr { id: usize, kind: String },
     Cancelled { id: usize },
     Counts { host: usize, public: usize },
+    /// controller imposed a partition between `host` and h0 (oneway: 0 both, 1 host->h0, 2 h0->host)
+    Partition { host: usize, oneway: u8 },
+    /// controller imposed a hold between `host` and h0
+    Hold { host: usize },
 }
 
 fn hname(i: usize) -> String {
@@ -212,9 +218,10 @@ fn gen(seed: u64) -> Scn {
         });
     }
     let fault = if nhosts >= 2 {
-        match r.below(6) {
+        match r.below(7) {
             0 => Fault::Partition { host: r.range(1, nhosts as u64 - 1) as usize, at: r.range(0, horizon / tick_ms), len: r.range(1, 40), oneway: r.below(3) as u8 },
             1 => Fault::Hold { host: r.range(1, nhosts as u64 - 1) as usize, at: r.range(0, horizon / tick_ms), len: r.range(1, 30) },
+            2 => Fault::HoldThenPartition { host: r.range(1, nhosts as u64 - 1) as usize, at: r.range(0, horizon / tick_ms), len1: r.range(1, 20), len2: r.range(1, 20) },
             _ => Fault::None,
         }
     } else {
@@ -241,6 +248,8 @@ enum CState {
     InFlight,
     WireDropped,
     Unmatched { step: u64 },
+    /// still in flight (or held) when its direction was partitioned
+    PartitionDropped { step: u64 },
     Queued,
     ListenerDropped { step: u64 },
     Accepted { step: u64, seq: u64 },
@@ -251,6 +260,9 @@ struct CModel {
     src: Option<String>,
     state: CState,
     call_step: u64,
+    /// step in which the SYN was sent, and whether it is certainly parked on a held link
+    sent_step: u64,
+    held: bool,
     ret: Option<(u64, u64, Result<(String, String), String>)>, // (seq, step, result)
     cancel: Option<(u64, u64)>,
 }
@@ -323,8 +335,23 @@ fn scenario(s: Scn) -> ScenarioOut {
         let mut k = 0u64;
         loop {
             match &s.fault {
+                Fault::HoldThenPartition { host, at, len1, len2 } => {
+                    if k == *at {
+                        log.push(Ev::Hold { host: *host });
+                        sim.hold(hname(*host), hname(0));
+                    }
+                    if k == at + len1 {
+                        log.push(Ev::Partition { host: *host, oneway: 0 });
+                        sim.partition(hname(*host), hname(0));
+                    }
+                    if k == at + len1 + len2 {
+                        sim.repair(hname(*host), hname(0));
+                        sim.release(hname(*host), hname(0));
+                    }
+                }
                 Fault::Partition { host, at, len, oneway } => {
                     if k == *at {
+                        log.push(Ev::Partition { host: *host, oneway: *oneway });
                         match oneway {
                             0 => sim.partition(hname(*host), hname(0)),
                             1 => sim.partition_oneway(hname(*host), hname(0)),
@@ -370,6 +397,7 @@ fn scenario(s: Scn) -> ScenarioOut {
             Fault::None => "none",
             Fault::Partition { .. } => "partition",
             Fault::Hold { .. } => "hold",
+            Fault::HoldThenPartition { .. } => "hold+partition",
         },
         if s.min_ms == s.max_ms { "fixed" } else { "ranged" }
     );
@@ -384,7 +412,7 @@ fn scenario(s: Scn) -> ScenarioOut {
         Item::H(q, _, _) => *q,
         Item::T(t) => t.seq,
     });
-    let mut conns: Vec<CModel> = s.conns.iter().map(|_| CModel { src: None, state: CState::NotSent, call_step: 0, ret: None, cancel: None }).collect();
+    let mut conns: Vec<CModel> = s.conns.iter().map(|_| CModel { src: None, state: CState::NotSent, call_step: 0, sent_step: 0, held: false, ret: None, cancel: None }).collect();
     let mut await_send: BTreeMap<String, usize> = BTreeMap::new(); // node name -> conn id whose Send comes next
     let mut lo_fifo: VecDeque<usize> = VecDeque::new(); // same-host connects awaiting loopback delivery
     let mut bound: Option<bool> = None; // Some(loopback_bind)
@@ -392,6 +420,8 @@ fn scenario(s: Scn) -> ScenarioOut {
     let mut accepts: Vec<(String, String, Option<usize>)> = vec![]; // (peer, local, conn id)
     let mut nonces: BTreeMap<String, Vec<u64>> = BTreeMap::new();
     let mut by_src: BTreeMap<String, usize> = BTreeMap::new(); // latest conn with this source address
+    let mut link_held: std::collections::BTreeSet<usize> = Default::default(); // hosts whose link to h0 is held
+    let min_steps = s.min_ms.div_ceil(s.tick_ms);
     for it in &items {
         match it {
             Item::H(seq, step, e) => match e {
@@ -476,6 +506,34 @@ fn scenario(s: Scn) -> ScenarioOut {
                         );
                     }
                 }
+                Ev::Hold { host } => {
+                    link_held.insert(*host);
+                    // SYNs definitely still in flight are captured by the hold
+                    for (id, c) in conns.iter_mut().enumerate() {
+                        if c.state == CState::InFlight && s.conns[id].host == *host && c.sent_step + min_steps > *step {
+                            c.held = true;
+                        }
+                    }
+                }
+                Ev::Partition { host, oneway } => {
+                    if *oneway != 2 {
+                        for (id, c) in conns.iter_mut().enumerate() {
+                            if c.state == CState::InFlight && s.conns[id].host == *host && *host != 0 {
+                                // certainly still on the link: parked by a hold, or its minimum
+                                // latency has not elapsed; otherwise it may already count as arrived
+                                if c.held || c.sent_step + min_steps > *step {
+                                    c.state = CState::PartitionDropped { step: *step };
+                                    out.count("syns_in_flight_at_partition", 1);
+                                    if c.held {
+                                        out.count("held_syns_at_partition", 1);
+                                    }
+                                } else {
+                                    out.count("syns_undetermined_at_partition", 1);
+                                }
+                            }
+                        }
+                    }
+                }
             },
             Item::T(t) => {
                 if t.protocol != "TCP SYN" {
@@ -486,6 +544,8 @@ fn scenario(s: Scn) -> ScenarioOut {
                         if let Some(id) = await_send.remove(&t.node) {
                             conns[id].src = Some(t.src.clone());
                             conns[id].state = CState::InFlight;
+                            conns[id].sent_step = t.step;
+                            conns[id].held = link_held.contains(&s.conns[id].host);
                             by_src.insert(t.src.clone(), id);
                         }
                     }
@@ -511,6 +571,16 @@ fn scenario(s: Scn) -> ScenarioOut {
                         };
                         let Some(id) = id else { continue };
                         out.count("syns_delivered", 1);
+                        if let CState::PartitionDropped { step } = conns[id].state {
+                            // the obligation (refuse promptly) stays; the delivery itself is a violation
+                            out.violate(
+                                "syn-survived-partition",
+                                format!("C12|syn-survived-partition|{shape}"),
+                                format!("connector #{id}'s SYN was in flight (or held) when its direction was partitioned after step {step}, yet it was delivered in step {}", t.step),
+                                desc.clone(),
+                            );
+                            continue;
+                        }
                         let dport = port_of(&t.dst);
                         let matches = match bound {
                             Some(lo_bind) => dport == PORT && (!lo_bind || ip_is_loopback(&t.dst)),
@@ -571,6 +641,7 @@ fn scenario(s: Scn) -> ScenarioOut {
             }
             CState::WireDropped => must_refuse("its SYN was dropped by an explicit partition", c.call_step, &mut out),
             CState::Unmatched { step } => must_refuse("no matching listener was bound when its SYN arrived", *step, &mut out),
+            CState::PartitionDropped { step } => must_refuse("its SYN was still in flight (or held) when the direction was partitioned", *step, &mut out),
             CState::ListenerDropped { step } => must_refuse("the listener was dropped before accepting it", *step, &mut out),
             CState::InFlight | CState::Queued => {
                 if ok {
@@ -688,6 +759,6 @@ fn fin() -> Finish<'static> {
             "prompt = within 2 steps of the deciding wire/API event".into(),
         ],
         min_distinct: 100,
-        required_counters: vec!["connects_accepted", "refusals_observed", "cancelled_connectors_skipped_by_accept", "syns_dropped_by_partition", "nonces_matched", "final_count_samples"],
+        required_counters: vec!["syns_in_flight_at_partition", "held_syns_at_partition", "connects_accepted", "refusals_observed", "cancelled_connectors_skipped_by_accept", "syns_dropped_by_partition", "nonces_matched", "final_count_samples"],
     }
 }
